@@ -19,6 +19,9 @@
 //        sd0 sd1 (ShutdownInternalThread(false/true))   jn (WaitForInternalThreadToExit)   gs (GetOwnerWakeupSocket)
 //        -- everything but si/so only in thread 0.
 //    The internal thread's MessageReceivedFromOwner reacts to Message <id> as react(id) below (replies / exit).
+//    f=1 (optional head entry): "fine" run -- EVERY Mutex lock in muscle (object pools, socket pool, ..) is a decision point, so
+//       threads also interleave inside StartInternalThread / CreateConnectedSocketPair etc.  The Coq LTS has no such steps, so
+//       only `k FINE` is printed (by both sides) and the oracle alone judges the run (search for a failing input).
 //    sch: explicit decisions ("2" run thread 2, "2!" fire thread 2's timeout), entries that are not enabled are skipped;
 //    beyond them: seed=N random policy, seed=- non-preemptive policy.  Internal threads get the ids n, n+1, .. as created.
 // modes:  (default) cases on stdin -> traces;   --explore <max_preemptions> <max_runs>: for each stdin case print every
@@ -51,7 +54,7 @@ enum { W_POLL = 0, W_NEVER, W_TIMED };
 struct Op { int kind; long arg; bool null; };     // arg: message id / wake kind / wait flag
 
 struct Case {
-   bool sockets; bool evd; int n; bool haveSeed; uint64_t seed; std::vector<Choice> sched;
+   bool sockets; bool evd; bool fine; int n; bool haveSeed; uint64_t seed; std::vector<Choice> sched;
    std::vector<std::vector<Op> > prog;
    std::string head, body;
 };
@@ -77,13 +80,14 @@ static bool parse_case(const std::string & line, Case & c)
    const size_t bar = line.find('|');
    if (bar == std::string::npos) return false;
    c.head = line.substr(0, bar); c.body = line.substr(bar+1);
-   c.sockets = true; c.evd = false; c.n = 0; c.haveSeed = false; c.seed = 0; c.sched.clear();
+   c.sockets = true; c.evd = false; c.fine = false; c.n = 0; c.haveSeed = false; c.seed = 0; c.sched.clear();
    std::vector<std::string> hs = split(c.head, ',');
    for (size_t i=0; i<hs.size(); i++)
    {
       const std::string & h = hs[i];
       if (h.compare(0, 2, "m=") == 0) {if (h == "m=s") c.sockets = true; else if (h == "m=w") c.sockets = false; else return false;}
       else if (h.compare(0, 2, "k=") == 0) {if (h == "k=d") c.evd = false; else if (h == "k=e") c.evd = true; else return false;}
+      else if (h.compare(0, 2, "f=") == 0) {if (h == "f=1") c.fine = true; else if (h == "f=0") c.fine = false; else return false;}
       else if (h.compare(0, 2, "n=") == 0) c.n = atoi(h.c_str()+2);
       else if (h.compare(0, 5, "seed=") == 0) {if (h.size() > 5 && h[5] != '-') {c.haveSeed = true; c.seed = strtoull(h.c_str()+5, NULL, 10);}}
       else if (h.compare(0, 4, "sch=") == 0)
@@ -152,6 +156,7 @@ static long id_of(const MessageRef & m) {return m() ? (long) m()->what : -1;}
 // ---------------------------------------------------------------------------------------------------------------------
 struct Run;
 static Run * g_run = NULL;
+static bool g_fine = false;    // the current case is a "fine" run (every Mutex lock is a decision point)
 
 class TestThread : public Thread
 {
@@ -247,7 +252,7 @@ static void refresh_readable()
 static int WrapperHook(int kind, const void * obj, const void * arg)
 {
    if (kind == K_ATOMIC_INC || kind == K_ATOMIC_DEC || kind == K_ATOMIC_CAS || g_run == NULL) return g_inner(kind, obj, arg);
-   if ((kind == K_MUTEX_LOCK || kind == K_MUTEX_UNLOCK || kind == K_MUTEX_TRYLOCK) && chan_of_obj(obj) < 0) return g_inner(kind, obj, arg);   // not one of ours: never a decision
+   if (!g_fine && (kind == K_MUTEX_LOCK || kind == K_MUTEX_UNLOCK || kind == K_MUTEX_TRYLOCK) && chan_of_obj(obj) < 0) return g_inner(kind, obj, arg);   // not one of ours: never a decision
    if (kind != K_THREAD_START) refresh_readable();
    if (kind == K_SEM_WAIT || kind == K_SEM_TIMEDWAIT)
    {
@@ -424,7 +429,8 @@ static Options base_options()
       switch(kind)
       {
          case K_MUTEX_LOCK: case K_MUTEX_UNLOCK:
-            return (g_run && (obj == (const void *) &tsd_of(0)._queueLock || obj == (const void *) &tsd_of(1)._queueLock)) ? (F_LOG|F_DECIDE) : 0;
+            if (g_run && (obj == (const void *) &tsd_of(0)._queueLock || obj == (const void *) &tsd_of(1)._queueLock)) return F_LOG|F_DECIDE;
+            return (g_fine && kind == K_MUTEX_LOCK) ? F_DECIDE : 0;
          case K_WC_WAIT: case K_WC_TIMEDWAIT: return F_LOG|F_DECIDE;
          case K_WC_NOTIFY: case K_SEM_POST: case K_THREAD_SPAWN: return F_LOG;
          case K_THREAD_SPAWNED: case K_THREAD_JOIN: return F_LOG|F_DECIDE;
@@ -523,6 +529,7 @@ static void run_case(long k, const Case & c)
 {
    Run * r = new Run;
    g_run = r;
+   g_fine = c.fine;
    Options o = base_options();
    o.schedule = c.sched;
    if (c.haveSeed) {o.policy = Options::RANDOM; o.seed = c.seed;} else o.policy = Options::NONPREEMPTIVE;
@@ -530,9 +537,16 @@ static void run_case(long k, const Case & c)
    setup_run(*r, c, *s);
    const Result res = s->Run();
    judge_end(*r, res);
-   printf("%ld %s\n", k, format_trace(res).c_str());
+   if (c.fine) printf("%ld FINE\n", k); else printf("%ld %s\n", k, format_trace(res).c_str());
    for (size_t i=0; i<r->oracle.size(); i++) printf("%ld ORACLE FAIL %s\n", k, r->oracle[i].c_str());
    fflush(stdout);
+   if (c.fine && !r->oracle.empty())
+   {
+      // the decisions taken, as an explicit schedule ('.'-separated, ready for sch=) -- for a seed-independent replay
+      std::string sch = FormatSchedule(res.Schedule());
+      for (size_t i=0; i<sch.size(); i++) if (sch[i] == ',') sch[i] = '.';
+      fprintf(stderr, "C11 fine run %ld failed its oracle; schedule: sch=%s\n", k, sch.c_str());
+   }
    cleanup_run(r, s, res);
    g_run = NULL;
 }
